@@ -160,6 +160,10 @@ class Contract(object):
             env["result"] = res
             for label, e in self.ensures_:
                 ex.assume(call_named(e, env, ex))
+            for e, lemma_name in getattr(self, "lemma_ensures", []):
+                # a clause of the callee proved by a separate lemma harness over its contract (discharged in the same check)
+                ex.assume(call_named(e, env, ex))
+                ex.assumptions.add("clause of %s proved by lemma %s is used by %s" % (self.short, lemma_name, caller))
             for e in getattr(self, "assumed_ensures", []):
                 # a clause of the callee that is NOT proved deductively (bounded stand-in only): used, and reported
                 ex.assume(call_named(e, env, ex))
